@@ -67,6 +67,11 @@ func init() {
 
 type contextualizerData struct {
 	Payload any `json:"payload"`
+	// The response as received. When the data is taken from the cache, the payload is decoded from
+	// it again. Otherwise, the types of the values would depend on the encoding used by the cache
+	// (e.g. integers of a YAML response would become floats), and not on the response.
+	RawPayload  []byte `json:"raw_payload,omitempty"`
+	ContentType string `json:"content_type,omitempty"`
 }
 
 type genericContextualizer struct {
@@ -147,6 +152,12 @@ func (h *genericContextualizer) Execute(ctx heimdall.Context, sub *subject.Subje
 
 			if err = json.Unmarshal(entry, &cd); err == nil {
 				logger.Debug().Msg("Reusing contextualizer response from cache")
+
+				if len(cd.RawPayload) != 0 {
+					if cd.Payload, err = h.decodePayload(ctx, cd.ContentType, cd.RawPayload); err != nil {
+						return err
+					}
+				}
 
 				response = &cd
 			}
@@ -246,12 +257,23 @@ func (h *genericContextualizer) callEndpoint(
 
 	defer resp.Body.Close()
 
-	data, err := h.readResponse(ctx, resp)
+	rawData, err := h.readResponse(ctx, resp)
 	if err != nil && !errors.Is(err, errNoContent) {
 		return nil, err
 	}
 
-	return &contextualizerData{Payload: data}, nil
+	data := &contextualizerData{}
+
+	if rawData != nil {
+		data.RawPayload = rawData
+		data.ContentType = resp.Header.Get("Content-Type")
+
+		if data.Payload, err = h.decodePayload(ctx, data.ContentType, rawData); err != nil {
+			return nil, err
+		}
+	}
+
+	return data, nil
 }
 
 func (h *genericContextualizer) createRequest(
@@ -307,7 +329,7 @@ func (h *genericContextualizer) createRequest(
 	return req, nil
 }
 
-func (h *genericContextualizer) readResponse(ctx heimdall.Context, resp *http.Response) (any, error) {
+func (h *genericContextualizer) readResponse(ctx heimdall.Context, resp *http.Response) ([]byte, error) {
 	logger := zerolog.Ctx(ctx.AppContext())
 
 	if !(resp.StatusCode >= http.StatusOK && resp.StatusCode < http.StatusMultipleChoices) {
@@ -329,9 +351,13 @@ func (h *genericContextualizer) readResponse(ctx heimdall.Context, resp *http.Re
 			CausedBy(err)
 	}
 
-	contentType := resp.Header.Get("Content-Type")
+	logger.Debug().Str("_content_type", resp.Header.Get("Content-Type")).Msg("Response received")
 
-	logger.Debug().Str("_content_type", contentType).Msg("Response received")
+	return rawData, nil
+}
+
+func (h *genericContextualizer) decodePayload(ctx heimdall.Context, contentType string, rawData []byte) (any, error) {
+	logger := zerolog.Ctx(ctx.AppContext())
 
 	decoder, err := contenttype.NewDecoder(contentType)
 	if err != nil {
